@@ -7,6 +7,7 @@ import (
 	"os"
 	"path/filepath"
 	"strings"
+	"time"
 
 	"github.com/wrgl/wrgl/pkg/objects"
 	"github.com/wrgl/wrgl/pkg/ref"
@@ -21,7 +22,8 @@ import (
 //	            permuted, another run size / worker count / delimiter / producer (kind 0 or 2) / store /
 //	            forced worker schedule (deps, see C01) / CSV text style (see C01)
 //	  mutant  = (columns pknames rows) -- differs in one cell / column name / column order / key
-//	  cli     = 1: additionally drive wrgl commit from a branch file (see below)
+//	  cli     = 1: additionally drive wrgl commit from a branch file with --no-cache (see c02CLI)
+//	            2: drive it WITH the cache; a sixth element lists steps (delta+100000 content all), see c02Cache
 //	observation = (status (block ...) (same ...) (differs ...) (cli ...))
 //	  blocks of variant 0 (rows as nodes of cells); same_i = 1 iff variant i+1 got the table id of
 //	  variant 0; differs_j = 1 iff mutant j got another id (2 = mutant refused);
@@ -118,6 +120,7 @@ func runC02(ctx *Ctx, c *xt.T) (*xt.T, Verdict) {
 	}
 	differs := xt.N()
 	var mutants []c01Case
+	var mutSum0 []byte
 	for j, mt := range c.Kids[3].Kids {
 		k := c01Case{Columns: c01Strs(mt.Kids[0]), PKNames: c01Strs(mt.Kids[1]), Rows: c19DecodeRows(mt.Kids[2]),
 			RunSize: 4096, Workers: 1, Delim: ','}
@@ -128,6 +131,9 @@ func runC02(ctx *Ctx, c *xt.T) (*xt.T, Verdict) {
 			continue
 		}
 		ne := !bytes.Equal(res.Sum, sum0)
+		if j == 0 {
+			mutSum0 = res.Sum
+		}
 		differs.Add(xt.Bool(ne))
 		if !ne {
 			bad("id-collision-for-different-content", "mutant %d (differs in a cell / column / key) got the same id %x", j, sum0)
@@ -136,6 +142,9 @@ func runC02(ctx *Ctx, c *xt.T) (*xt.T, Verdict) {
 	cli := xt.N()
 	if len(c.Kids) > 4 && c.Kids[4].N == 1 && len(variants) > 1 && len(mutants) > 0 {
 		cli = c02CLI(ctx, variants[0], variants[1], mutants[0], bad)
+	}
+	if len(c.Kids) > 5 && c.Kids[4].N == 2 && len(variants) > 1 && len(mutants) > 0 && mutSum0 != nil {
+		cli = c02Cache(ctx, []c01Case{variants[0], variants[1], mutants[0]}, [][]byte{sum0, sum0, mutSum0}, c.Kids[5], bad)
 	}
 	return xt.N(xt.LI(0), c01BlocksPlain(blocks0), same, differs, cli), v
 }
@@ -216,12 +225,147 @@ func c02CLI(ctx *Ctx, v0, v1, m0 c01Case, bad func(class, format string, a ...in
 	return out
 }
 
+// c02Cache drives branch-file mode WITH the commit cache (ensureTempCommit): after the first
+// commit (--set-file/--set-primary-key) and the commit that creates the cached <branch>-tmp
+// commit, every step writes one of the contents, sets the file's modification time to the
+// cached commit's (second precision) time + delta ms with os.Chtimes and runs
+// `wrgl commit main MSG` or `wrgl commit --all MSG`.  Judged (mtime strictly after the cached
+// commit's time): a commit is created iff the file's table differs from the head's, the head
+// then holds the file's table, and "hasn't changed" / "up-to-date" is printed iff no commit
+// was created.  Steps with delta <= 0 are observed only (the code trusts the mtime there).
+func c02Cache(ctx *Ctx, contents []c01Case, sums [][]byte, steps *xt.T, bad func(class, format string, a ...interface{})) *xt.T {
+	rd, root := c01NewRepo(ctx)
+	defer func() {
+		rd.Close()
+		os.RemoveAll(root)
+	}()
+	fp := filepath.Join(root, "data.csv")
+	write := func(k c01Case) {
+		text := c01Text(append([][]string{k.Columns}, k.Rows...), ',', k.Style)
+		if err := os.WriteFile(fp, text, 0600); err != nil {
+			panic(err)
+		}
+	}
+	// (head commit, head table, cached commit time)
+	state := func() (string, []byte, time.Time) {
+		db, err := rd.OpenObjectsStore()
+		if err != nil {
+			panic(err)
+		}
+		defer db.Close()
+		rs := rd.OpenRefStore()
+		var headSum string
+		var tbl []byte
+		if h, err := ref.GetHead(rs, "main"); err == nil {
+			headSum = string(h)
+			com, err := objects.GetCommit(db, h)
+			if err != nil {
+				panic(err)
+			}
+			tbl = com.Table
+		}
+		var tc time.Time
+		if h, err := ref.GetHead(rs, "main-tmp"); err == nil {
+			com, err := objects.GetCommit(db, h)
+			if err != nil {
+				panic(err)
+			}
+			tc = com.Time
+		}
+		return headSum, tbl, tc
+	}
+	out := xt.N()
+	run := func(name string, args ...string) (string, bool) {
+		var buf bytes.Buffer
+		err := c01Wrgl(&buf, args...)
+		if err == errC01Hang {
+			bad("commit-hangs", "%s: wrgl %v did not return", name, args)
+			return "", false
+		}
+		if err != nil {
+			panic(fmt.Sprintf("wrgl %v: %v", args, err))
+		}
+		return buf.String(), true
+	}
+	write(contents[0])
+	args := []string{"commit", "main", fp, "first", "-n", "1", "--set-file"}
+	if len(contents[0].PKNames) > 0 {
+		args = append(args, "-p", strings.Join(contents[0].PKNames, ","), "--set-primary-key")
+	}
+	if _, ok := run("first commit", args...); !ok {
+		return out
+	}
+	h0, _, _ := state()
+	out.Add(xt.Bool(h0 != ""))
+	if _, ok := run("commit creating the cache", "commit", "main", "second", "-n", "1"); !ok {
+		return out
+	}
+	h1, _, tc := state()
+	out.Add(xt.Bool(h1 != h0))
+	if h1 != h0 {
+		bad("no-change-decision", "unchanged file committed again")
+	}
+	if tc.IsZero() {
+		panic("no cached main-tmp commit after a commit from the branch file")
+	}
+	for i, sp := range steps.Kids {
+		delta := time.Duration(int64(sp.Kids[0].N)-100000) * time.Millisecond
+		ci := int(sp.Kids[1].N)
+		all := len(sp.Kids) > 2 && sp.Kids[2].N == 1
+		write(contents[ci])
+		mtime := tc.Add(delta)
+		if err := os.Chtimes(fp, mtime, mtime); err != nil {
+			panic(err)
+		}
+		before, headTbl, _ := state()
+		name := fmt.Sprintf("step %d (content %d, mtime = cached commit time %+v)", i, ci, delta)
+		var text string
+		var ok bool
+		if all {
+			text, ok = run(name, "commit", "--all", fmt.Sprintf("msg%d", i), "-n", "1")
+		} else {
+			text, ok = run(name, "commit", "main", fmt.Sprintf("msg%d", i), "-n", "1")
+		}
+		if !ok {
+			return out
+		}
+		after, newTbl, newTc := state()
+		created := after != before
+		out.Add(xt.Bool(created))
+		said := strings.Contains(text, "hasn't changed since the last commit") || strings.Contains(text, "all branches are up-to-date")
+		if created == said {
+			bad("no-change-message", "%s: commit created = %v but the output says unchanged = %v", name, created, said)
+		}
+		if delta > 0 {
+			ctx.Count("cache_steps_judged")
+			want := !bytes.Equal(sums[ci], headTbl)
+			switch {
+			case want && !created:
+				bad("changed-file-reported-unchanged", "%s: the file holds another table than the branch head but no commit was created", name)
+			case !want && created:
+				bad("no-change-decision", "%s: the file holds the head's table but a commit was created", name)
+			case created && !bytes.Equal(newTbl, sums[ci]):
+				bad("committed-table-not-the-files", "%s: the new head's table is not the table of the file", name)
+			}
+		} else {
+			ctx.Count("cache_steps_observed_only")
+		}
+		tc = newTc
+	}
+	return out
+}
+
 // ------------------------------------------------------------------ generation
 
 func genC02(ctx *Ctx) []Case {
 	g := &c01Gen{ctx: ctx, huge: uint64(1) << 40}
 	var cases []Case
+	ncli := 0
 	build := func(tag string, base c01Case, cli bool) {
+		if cli {
+			ncli++
+		}
+		cacheMode := cli && ncli%2 == 0 // every other CLI case drives the cache
 		recs, ok := c01Stable(append([][]string{base.Columns}, base.Rows...), ',')
 		if !ok {
 			ctx.Count("gen_not_csv_stable_skipped")
@@ -374,8 +518,42 @@ func genC02(ctx *Ctx) []Case {
 		if cli {
 			cliFlag = 1
 		}
-		cases = append(cases, Case{Tag: tag, Nontrivial: len(base.Rows) >= 2,
-			C: xt.N(xt.Strs(base.Columns), xt.Strs(base.PKNames), vs, ms, xt.LI(cliFlag))})
+		t := xt.N(xt.Strs(base.Columns), xt.Strs(base.PKNames), vs, ms, xt.LI(cliFlag))
+		if cacheMode && len(base.Rows) > 0 {
+			// branch-file mode with the cache: contents 0/1 = the table (two row orders), 2 = one cell changed;
+			// mtime = cached commit time + delta: 0.2 s and 0.9 s (same second), 1 s, 2 s; <= 0 observed only
+			deltas := []int{200, 900, 1000, 2000, 1, 999, 0, -5000}
+			steps := xt.N()
+			content := 0
+			for j, m := 0, 5+ctx.Pick(4); j < m; j++ {
+				d := deltas[(j+ctx.Pick(3))%len(deltas)]
+				if j < 2 {
+					d = deltas[(ncli/2+j)%2] // every case starts with a same-second edit
+				}
+				switch ctx.Pick(3) {
+				case 0: // leave the logical content
+					if content == 0 {
+						content = 1
+					} else if content == 1 {
+						content = 0
+					}
+				default: // change it
+					if content == 2 {
+						content = ctx.Pick(2)
+					} else {
+						content = 2
+					}
+				}
+				if j == 0 {
+					content = 2
+				}
+				steps.Add(xt.N(xt.LI(d+100000), xt.LI(content), xt.LI(j%3/2)))
+				ctx.Count(fmt.Sprintf("cache_step_delta_%dms", d))
+			}
+			t = xt.N(xt.Strs(base.Columns), xt.Strs(base.PKNames), vs, ms, xt.LI(2), steps)
+			ctx.Count("cache_cases")
+		}
+		cases = append(cases, Case{Tag: tag, Nontrivial: len(base.Rows) >= 2, C: t})
 	}
 	// witness: multi-block table, every way
 	{
@@ -386,6 +564,7 @@ func genC02(ctx *Ctx) []Case {
 		build("witness", c01Case{Columns: []string{"a", "b", "c"}, PKNames: []string{"a"}, Rows: rows}, false)
 		build("witness", c01Case{Columns: []string{"a", "b", "c"}, PKNames: nil, Rows: rows[:300]}, false)
 		build("witness", c01Case{Columns: []string{"a", "b"}, PKNames: []string{"a"}, Rows: [][]string{{"", "1"}, {"x", "2"}}}, true)
+		build("witness", c01Case{Columns: []string{"id", "name"}, PKNames: []string{"id"}, Rows: [][]string{{"1", "alice"}, {"2", "bob"}, {"3", "carol"}}}, true)
 	}
 	n := 200
 	if ctx.Thorough() {
@@ -399,7 +578,7 @@ func genC02(ctx *Ctx) []Case {
 				simple = false
 			}
 		}
-		cli := simple && i%12 == 0 && len(k.Rows) < 300 && len(k.Rows) > 0
+		cli := simple && i%6 == 0 && len(k.Rows) < 300 && len(k.Rows) > 0
 		if cli {
 			ctx.Count("cli_cases")
 		}
